@@ -27,11 +27,16 @@ FINDING_FLAGS = [
 L_ORDER, L_MIXED, L_STALE, L_MAP = [x[1] for x in FINDING_FLAGS]
 
 
-def model_cfg():
+def model_cfg(ctx):
     """Which repairs the Coq model is asked to contain: a defect listed with status `known` is
     modelled as present (faithful to the pinned tree); once it is listed as `fixed` (or not listed)
-    the repaired behaviour is the one the code must correspond to."""
-    known = {k.get("signature"): k.get("status") for k in common.load_known("C15")}
+    the repaired behaviour is the one the code must correspond to.
+    C15_ASSUME_FIXED=sig1,sig2 (used to try a proposed fix on a scratch copy via VERIF_REPO) treats
+    the named findings as fixed for this run: no suppression, repaired model."""
+    forced = [x for x in os.environ.get("C15_ASSUME_FIXED", "").split(",") if x]
+    if forced:
+        ctx.known = [k for k in ctx.known if k.get("signature") not in forced and "all" not in forced]
+    known = {k.get("signature"): k.get("status") for k in ctx.known}
     return {field: known.get(sig) != "known" for sig, _, field in FINDING_FLAGS}
 
 
@@ -622,7 +627,7 @@ def run(ctx):
         "with_free_parameters is applied to the finished sum only; FreeParameterAnalysis + x raises TypeError in the code "
         "(missing free_parameters) and is outside the model",
     ]
-    cfg = model_cfg()
+    cfg = model_cfg(ctx)
     ctx.notes["model_cfg"] = cfg
     built = ctx.build()
     cases = gen_cases(ctx)
